@@ -722,13 +722,17 @@ func (p *Path) callFunc(fn *ssa.Function, args []Value, free []Value, site *ssa.
 	if fi.sink {
 		return sinkResult(fn.Signature)
 	}
+	// bodies are built lazily per package; Build is idempotent and synchronises with a
+	// concurrent builder (never read fn.Blocks of a package that may be mid-build)
+	if fn.Pkg != nil {
+		fn.Pkg.Build()
+	} else if o := fn.Origin(); o != nil && o.Pkg != nil {
+		o.Pkg.Build()
+	} else if pf := fn.Parent(); pf != nil && pf.Pkg != nil {
+		pf.Pkg.Build()
+	}
 	if fn.Blocks == nil {
-		if fn.Pkg != nil {
-			fn.Pkg.Build()
-		}
-		if fn.Blocks == nil {
-			panic(unsupported("no body: " + name))
-		}
+		panic(unsupported("no body: " + name))
 	}
 	if !fi.allowed {
 		panic(unsupported("call outside allow-list: " + name))
@@ -2131,6 +2135,8 @@ func (p *Path) builtin(b *ssa.Builtin, args []Value, cc *ssa.CallCommon) Value {
 			}
 		}
 		return r
+	case "ssa:deferstack":
+		return nil
 	case "ssa:wrapnilchk":
 		if pt, ok := args[0].(Ptr); ok && pt.c == nil {
 			p.goPanicf("value method called using nil pointer")
